@@ -942,6 +942,15 @@ class Exec:
             if isinstance(a, X) and a.op == 'int' and a.a[0] == 1:
                 return arith('mod', b, zint(2))
             raise _Unsup('bitwise & with something other than the literal 1')
+        if isinstance(node.op, ast.Pow):
+            # x ** 2, x ** 3 for an integer x and a literal exponent: repeated multiplication
+            a, b = self.ev(node.left, env), self.ev(node.right, env)
+            if isinstance(a, X) and a.ty == 'Z' and isinstance(b, X) and b.op == 'int' and 1 <= b.a[0] <= 4:
+                r = a
+                for _ in range(b.a[0] - 1):
+                    r = s_arith('mul', r, a)
+                return r
+            raise _Unsup('** other than an integer to a literal power 1..4')
         if op is None:
             raise _Unsup('binary operator ' + type(node.op).__name__)
         a, b = self.ev(node.left, env), self.ev(node.right, env)
@@ -1078,6 +1087,15 @@ class Exec:
         if _dotted(node.value) == 'np.s_':
             idx = self.ev(node.slice, env)
             return idx
+        if _dotted(node.value) in ('np.mgrid', 'numpy.mgrid'):
+            # np.mgrid[0:n, 0:m] -> (yy, xx) with yy[i, j] = i, xx[i, j] = j for the generic indices of the spec
+            idx = self.ev(node.slice, env)
+            if self.mesh_vars is None or not (isinstance(idx, PyTuple) and len(idx.items) == 2 and all(
+                    isinstance(sl, Slice) and isinstance(sl.start, X) and sl.start.op == 'int' and sl.start.a[0] == 0
+                    and isinstance(sl.stop, X) and sl.stop.ty == 'Z' for sl in idx.items)):
+                raise _Unsup('np.mgrid other than np.mgrid[0:n, 0:m] with integer n, m')
+            i, j = self.mesh_vars
+            return PyTuple([GenArr(i), GenArr(j)])
         base = self.ev(node.value, env)
         if isinstance(base, Opaque):
             raise _Unsup(base.why)
@@ -3466,6 +3484,38 @@ SPECS_C09 = [
                   'Ok (fst shape * oversample, snd shape * oversample)')),
 ]
 
+# ---------------------------------------------------------------------- C18: lentil/wfe.py, lentil/detector.py
+WFE = 'lentil/wfe.py'
+_OPQ = OPAQUE_K
+SPECS_C18 = [
+    dict(name='ps_freq', file=WFE, func='power_spectrum',
+         params={'mask': ('ARR', 2, 'pos'), 'pixelscale': _OPQ, 'rms': _OPQ, 'half_power_freq': _OPQ, 'exp': _OPQ,
+                 'seed': _OPQ},
+         rationals=True, mesh_vars=('i', 'j'), observe_calls={'SQRT': 'np.sqrt'},
+         observe='(yy, xx, SQRT_1[0], SQRT_3[0])', rtype=TT(TZn(2), TZn(2), TZ, TZ),
+         doc='power_spectrum(mask, ...) for a 2-d mask: element (i, j) of the frequency grids yy, xx (cycles/px) - '
+             'np.mgrid[0:n, 0:m], (yy - (np.floor(n/2) + 1))/n - as exact rationals (numerator, denominator) for generic '
+             'indices i, j, and the integers under the two scalar square roots: m**2 + n**2 (the half-power scale) and '
+             'm*n (the ifft2 normalisation)',
+         fallback="let '(n, m) := mask_shape in ((i - (n / 2 + 1), n), (j - (m / 2 + 1), m), m * m + n * n, m * n)"),
+    dict(name='cosmic_extent', file=DET, func='_cosmic_ray',
+         params={'shape': T(2), 'pixelscale': _OPQ, 'alpha_flux': _OPQ, 'proton_flux': _OPQ},
+         loop_focus={'iter': 'np.arange(0, ray.shape[0]-1)', 'mode': 'before'},
+         observe_calls={'RAY': '_propagate_ray', 'ZEROS': 'np.zeros'}, observe='(RAY_ray[2], ZEROS_img[0])',
+         rtype=TT(TZn(6), TZn(2)),
+         doc='_cosmic_ray(shape, ...): the integer box handed to _propagate_ray(position, direction, extent) - '
+             '(0, rows-1, 0, cols-1, 0, -1): one pixel deep - and the shape of the frame it deposits into',
+         fallback="let '(n, m) := shape in ((0, n - 1, 0, m - 1, 0, -1), (n, m))"),
+    dict(name='cosmic_shape', file=DET, func='cosmic_rays',
+         params={'shape': T(2), 'pixelscale': _OPQ, 'ts': _OPQ, 'rate': _OPQ, 'proton_flux': _OPQ, 'alpha_flux': _OPQ},
+         loop_focus={'iter': 'np.arange(0, nrays)', 'mode': 'body'},
+         observe_calls={'NR': '_nrays', 'ZEROS': 'np.zeros', 'CR': '_cosmic_ray'},
+         observe='(NR_nrays[0], ZEROS_img[0], CR_0[0])', rtype=TT(TZn(2), TZn(2), TZn(2)),
+         doc='cosmic_rays(shape, ...): the shape handed to _nrays, to np.zeros (the accumulated frame) and to every '
+             '_cosmic_ray call of the loop is the shape argument, unchanged',
+         fallback='(shape, shape, shape)'),
+]
+
 # one table per property: the whitelist, the generated file, what it imports, the Coq files of the layer
 SUITES = {
     'C11': {'specs': SPECS_C11, 'gen': 'theories/Gen/ZernikeSrc.v', 'imports': 'Model.Zernike',
@@ -3476,6 +3526,8 @@ SUITES = {
             'proofs': 'theories/Proofs/SpectrumOpSrcP.v', 'target': 'theories/Properties/C13Src.vo', 'props': 'C13Src'},
     'C01': {'specs': SPECS_C01, 'gen': 'theories/Gen/FourierSrc.v', 'imports': 'Lib.Base',
             'proofs': 'theories/Proofs/FourierSrcP.v', 'target': 'theories/Properties/C01Src.vo', 'props': 'C01Src'},
+    'C18': {'specs': SPECS_C18, 'gen': 'theories/Gen/NoiseSrc.v', 'imports': 'Lib.Base',
+            'proofs': 'theories/Proofs/NoiseSrcP.v', 'target': 'theories/Properties/C18Src.vo', 'props': 'C18Src'},
     'C12': {'specs': SPECS_C12, 'gen': 'theories/Gen/ZernikeFitSrc.v', 'imports': 'Lib.Base',
             'proofs': 'theories/Proofs/ZernikeFitSrcP.v', 'target': 'theories/Properties/C12Src.vo', 'props': 'C12Src'},
     'C07': {'specs': SPECS_C07, 'gen': 'theories/Gen/PlaneMulSrc.v', 'imports': 'Lib.Base',
@@ -5051,6 +5103,143 @@ SAMPLER.update({'basis_shape': lambda rng: ((_r(rng, 1, 6), _r(rng, 1, 6)), _r(r
 PREF.update({'basis_shape': lambda ms, k: min(ms) >= 1 and k >= 1, 'basis_shape_scalar_mode': lambda ms: min(ms) >= 1,
              'basis_vectorized': lambda ms, k: min(ms) >= 1 and k >= 1,
              'compose_mode': lambda ms, n, k: min(ms) >= 1 and 0 <= k < n})
+
+
+# ====================================================================== C18: power_spectrum grid, cosmic-ray box
+def _m_ps_freq(ms, i, j):
+    from fractions import Fraction
+    n, m = ms
+    return (Fraction(i - (n // 2 + 1), n), Fraction(j - (m // 2 + 1), m), m * m + n * n, m * n)
+
+
+def _canon_ps(v):
+    from fractions import Fraction
+    return tuple(x if isinstance(x, (int, Fraction)) else Fraction(x[0], x[1]) for x in v)
+
+
+MIRROR.update({'ps_freq': _m_ps_freq,
+               'cosmic_extent': lambda sh: ((0, sh[0] - 1, 0, sh[1] - 1, 0, -1), tuple(sh)),
+               'cosmic_shape': lambda sh: (tuple(sh),) * 3})
+CANON['ps_freq'] = _canon_ps
+
+
+class _StopHere(Exception):
+    pass
+
+
+def _drv_ps_freq(L, ms, i, j):
+    import numpy as np
+    from fractions import Fraction
+    n, m = ms
+    if not (1 <= n <= 8 and 1 <= m <= 8 and 0 <= i < n and 0 <= j < m):
+        return SKIP
+    wfe = sys.modules.get('lentil.wfe') or __import__('importlib').import_module('lentil.wfe')
+    roots, orig = [], np.sqrt
+
+    def spy(x, *a, **k):
+        roots.append(x)
+        return orig(x, *a, **k)
+    np.sqrt = spy
+    try:
+        with np.errstate(all='ignore'):
+            loc, r = _trace_locals(wfe.power_spectrum, 'power_spectrum', 'lentil/wfe.py', np.ones((n, m)), 1.0, 1.0, 1.0,
+                                   2.0, seed=1)
+    finally:
+        np.sqrt = orig
+    if loc is None or 'yy' not in loc or 'xx' not in loc:
+        return SKIP
+    try:
+        yy, xx = np.asarray(loc['yy']), np.asarray(loc['xx'])
+        if yy.shape != (n, m) or xx.shape != (n, m):
+            return ('shape', yy.shape, xx.shape)
+        # small integers divided once: the double is the correctly rounded quotient, its rational is recovered exactly
+        fy = Fraction(float(yy[i, j])).limit_denominator(64)
+        fx = Fraction(float(xx[i, j])).limit_denominator(64)
+        scal = [int(x) for x in roots if np.ndim(x) == 0 and float(x) == int(x)]
+        s2 = [x for x in roots if np.ndim(x) == 0]
+        return (fy, fx, int(s2[0]), int(s2[1])) if len(s2) >= 2 and float(s2[0]) == int(s2[0]) \
+            and float(s2[1]) == int(s2[1]) else SKIP
+    except Exception:      # noqa: BLE001
+        return SKIP
+
+
+def _drv_cosmic_extent(L, sh):
+    import numpy as np
+    if not all(1 <= v <= 12 for v in sh):
+        return SKIP
+    det = L.detector
+    rec, zer = [], []
+    o_ray, o_zeros = det._propagate_ray, np.zeros
+
+    def spy_ray(position, direction, extent):
+        rec.append(extent)
+        raise _StopHere()
+
+    def spy_zeros(shape, *a, **k):
+        if sys._getframe(1).f_code.co_name == '_cosmic_ray':       # (numpy calls np.zeros internally too)
+            zer.append(shape)
+        return o_zeros(shape, *a, **k)
+    det._propagate_ray, np.zeros = spy_ray, spy_zeros
+    state = np.random.get_state()
+    try:
+        np.random.seed(7)
+        det._cosmic_ray(tuple(sh), (5e-6, 5e-6, 3e-6), 4e9, 1e9)
+    except _StopHere:
+        pass
+    except Exception:      # noqa: BLE001
+        return SKIP
+    finally:
+        det._propagate_ray, np.zeros = o_ray, o_zeros
+        np.random.set_state(state)
+    if not rec or not zer:
+        return SKIP
+    return (_ints(rec[0]), _shape_of(zer[0]))
+
+
+def _shape_of(v):
+    import numpy as np
+    return _ints(v) if np.ndim(v) else (int(v),)
+
+
+def _drv_cosmic_shape(L, sh):
+    import numpy as np
+    if not all(1 <= v <= 12 for v in sh):
+        return SKIP
+    det = L.detector
+    nr, zer, cr = [], [], []
+    o_nr, o_cr, o_zeros = det._nrays, det._cosmic_ray, np.zeros
+
+    def spy_nr(shape, *a, **k):
+        nr.append(shape)
+        return 2
+
+    def spy_cr(shape, *a, **k):
+        cr.append(shape)
+        return o_zeros(tuple(sh))
+
+    def spy_zeros(shape, *a, **k):
+        if sys._getframe(1).f_code.co_name == 'cosmic_rays':
+            zer.append(shape)
+        return o_zeros(shape, *a, **k)
+    det._nrays, det._cosmic_ray, np.zeros = spy_nr, spy_cr, spy_zeros
+    try:
+        det.cosmic_rays(tuple(sh), (5e-6, 5e-6, 3e-6), 1.0)
+    except Exception:      # noqa: BLE001   (what was recorded before the failure still counts)
+        pass
+    finally:
+        det._nrays, det._cosmic_ray, np.zeros = o_nr, o_cr, o_zeros
+    if not (nr and zer and cr):
+        return SKIP
+    return (_shape_of(nr[0]), _shape_of(zer[0]), _shape_of(cr[0]))
+
+
+DRIVER.update({'ps_freq': _drv_ps_freq, 'cosmic_extent': _drv_cosmic_extent, 'cosmic_shape': _drv_cosmic_shape})
+SAMPLER.update({'ps_freq': lambda rng: (lambda n, m: ((n, m), rng.randint(0, n - 1), rng.randint(0, m - 1)))(
+                    _r(rng, 1, 8), _r(rng, 1, 8)),
+                'cosmic_extent': lambda rng: ((_r(rng, 1, 12), _r(rng, 1, 12)),),
+                'cosmic_shape': lambda rng: ((_r(rng, 1, 12), _r(rng, 1, 12)),)})
+PREF.update({'ps_freq': lambda ms, i, j: min(ms) >= 1 and 0 <= i < ms[0] and 0 <= j < ms[1],
+             'cosmic_extent': lambda sh: min(sh) >= 1, 'cosmic_shape': lambda sh: min(sh) >= 1})
 
 
 # ====================================================================== the check of one layer (called from extra)
